@@ -327,26 +327,59 @@ def mergeDecision (filters : List Nat) (up down : List RObj) : Option Bool :=
     else some rc
   | _, _ => none
 
-/-- one iteration of the main loop for C index `i` (levels i-1 and i) -/
-def ksStep (filters : List Nat) (i : Nat) (st : Tree × List (List RObj)) : Tree × List (List RObj) :=
-  match st.2[i - 1]?, st.2[i]? with
+/-- some consecutive pair (cur, next) of a normal children list with next strictly lower than cur
+    (hwloc__object_cpusets_compare_first(next, cur) < 0), cur restricted to the objects whose gp satisfies `sel` -/
+def pairBad (sel : Nat → Bool) : List Tree → Bool
+  | c :: n :: rest => (sel c.obj.gp && gtFirst c.obj.ccpuset n.obj.ccpuset) || pairBad sel (n :: rest)
+  | _ => false
+
+mutual
+/-- the check after a replace-parent merge: one of the objects `gps` (the children that took their parents' places) has a
+    next sibling that is strictly lower (the replaced parents were ordered by their own complete cpusets) -/
+def badOrderT (gps : List Nat) : Tree → Bool
+  | .node _ ns _ _ _ => pairBad (fun g => gps.contains g) ns || badOrderL gps ns
+def badOrderL (gps : List Nat) : List Tree → Bool
+  | [] => false
+  | t :: ts => badOrderT gps t || badOrderL gps ts
+end
+
+/-- hwloc__reorder_children_if_needed: hwloc__reorder_children only when some consecutive pair is out of order
+    (hwloc__reorder_children reverses children with identical first bits, so it must not run needlessly) -/
+def fixOrder (l : List Tree) : List Tree := if pairBad (fun _ => true) l then reorder l else l
+
+mutual
+/-- hwloc__reorder_children_if_needed on every normal object (memory, I/O and Misc objects have no normal children) -/
+def reorderAllT : Tree → Tree
+  | .node o ns ms ios mis => .node o (fixOrder (reorderAllL ns)) ms ios mis
+def reorderAllL : List Tree → List Tree
+  | [] => []
+  | t :: ts => reorderAllT t :: reorderAllL ts
+end
+
+/-- one iteration of the main loop for C index `i` (levels i-1 and i); state = tree, levels, need_reorder -/
+def ksStep (filters : List Nat) (i : Nat) (st : Tree × List (List RObj) × Bool) : Tree × List (List RObj) × Bool :=
+  match st.2.1[i - 1]?, st.2.1[i]? with
   | some up, some down =>
     match mergeDecision filters up down with
     | none => st
     | some rc =>
       if sameStructure (linksT none st.1) up down then
-        (mergeT (up.map (·.gp)) rc st.1, if rc then st.2.eraseIdx i else st.2.eraseIdx (i - 1))
+        (mergeT (up.map (·.gp)) rc st.1, (if rc then st.2.1.eraseIdx i else st.2.1.eraseIdx (i - 1)),
+         -- `if (replaceparent && i>1)`: check the new order of the children that replaced their parents (fix 244c8a8)
+         st.2.2 || (!rc && decide (1 < i) && badOrderT (down.map (·.gp)) (mergeT (up.map (·.gp)) rc st.1)))
       else st
   | _, _ => st
 
-def ksLoop (filters : List Nat) : Nat → Tree × List (List RObj) → Tree × List (List RObj)
+def ksLoop (filters : List Nat) : Nat → Tree × List (List RObj) × Bool → Tree × List (List RObj) × Bool
   | 0, st => st
   | i + 1, st => ksLoop filters i (ksStep filters (i + 1) st)
 
-/-- hwloc__reconnect(KEEPSTRUCTURE) as far as the tree is concerned -/
+/-- hwloc__reconnect(KEEPSTRUCTURE) as far as the tree is concerned: the level loop, then, if a replace-parent merge left
+    children out of order, one pass of hwloc__reorder_children_if_needed over all objects (levels are rebuilt from the tree) -/
 def keepStructure (filters : List Nat) (t : Tree) : Tree :=
   let levels := connectLevels t
-  (ksLoop filters (levels.length - 1) (t, levels)).1
+  let r := ksLoop filters (levels.length - 1) (t, levels, false)
+  if r.2.2 then reorderAllT r.1 else r.1
 
 /-! ### hwloc_topology_restrict -/
 
